@@ -186,16 +186,20 @@ class Meta:
             u = schema.ENUMS['Unit'][u['$enum'][1]]
         if r < 0.55 and u is None:
             return v, None
-        if r < 0.7:
-            d = {'value': v}
-            if u is not None:
-                d['units'] = u
-            return {'$dict': d}, None
         if r < 0.85:
+            tag = '$dict' if r < 0.7 else '$setup'
+            pool = self.__dict__.setdefault('_shared_pool', {})
+            if (tag, t) in pool and rng.random() < 0.35:
+                # the caller hands over the very object already used for another attribute of the same kind
+                return pool[(tag, t)], None
             d = {'value': v}
             if u is not None:
                 d['units'] = u
-            return {'$setup': d}, None
+            lit = {tag: d}
+            if rng.random() < 0.4:
+                lit['$share'] = 'sh%08x' % rng.randrange(1 << 32)
+                pool[(tag, t)] = lit
+            return lit, None
         # later: create without, then assign .value (and .units)
         return None, (v, u)
 
